@@ -728,6 +728,9 @@ impl Database {
             }
         }
 
+        // TRUNCATE empties the pages directly: older logged images of them must not come back
+        self.shared.checkpoint()?;
+
         Ok(ExecuteResult::Truncate {
             rows_affected: total_rows_affected,
         })
@@ -839,6 +842,15 @@ impl Database {
 
         self.save_catalog()?;
 
+        // ADD/DROP COLUMN rewrite the table pages directly. Page images logged before the rewrite
+        // must not be replayed over the rewritten pages by a later recovery: empty the log.
+        if matches!(
+            &alter.action,
+            AlterTableAction::AddColumn(_) | AlterTableAction::DropColumn { .. }
+        ) {
+            self.shared.checkpoint()?;
+        }
+
         Ok(ExecuteResult::AlterTable {
             action: action_desc,
         })
@@ -879,19 +891,25 @@ impl Database {
             TableFileHeader::from_bytes(page)?.root_page()
         };
 
+        let mut has_live_rows = false;
         let all_keys: Vec<Vec<u8>> = {
             let btree = BTree::new(&mut *storage, root_page)?;
             let mut cursor = btree.cursor_first()?;
             let mut keys = Vec::new();
             while cursor.valid() {
                 keys.push(cursor.key()?.to_vec());
+                // rows already deleted are still stored (marked in their header) but do not count
+                let value = cursor.value()?;
+                if value.len() < RecordHeader::SIZE || !RecordHeader::from_bytes(value).is_deleted() {
+                    has_live_rows = true;
+                }
                 cursor.advance()?;
             }
             keys
         };
 
         ensure!(
-            all_keys.is_empty() || !(must_not_be_null && fill_value.is_null()),
+            !has_live_rows || !(must_not_be_null && fill_value.is_null()),
             "cannot add NOT NULL column '{}' without a DEFAULT to non-empty table '{}'",
             new_columns[new_idx].name(),
             table_name
